@@ -665,3 +665,8 @@ _extend("C11", ["XCache"])
 _extend("C15", ["XExecution"], link=False)
 _extend("C16", ["XRetry", "XCache", "XFallback"])
 _extend("C17", ["XExecution"])
+PROPS["C02"]["required_theorems"] += ["Failsafe.Props.C02." + t for t in ["kernel_exceeded_iff", "kernel_result", "kernel_result_not_success", "kernel_listeners", "model_retry_decision_is_the_codes"]]
+PROPS["C08"]["required_theorems"] += ["Failsafe.Props.C08." + t for t in ["cancel_first_wins", "cancel_reports_result", "ctx_end_reports_ctx_error", "initializeRetry_cancelled", "initializeRetry_clears_cell", "recordResult_cancelled", "model_cancel_answers_are_the_codes"]]
+PROPS["C10"]["required_theorems"] += ["Failsafe.Props.C10." + t for t in ["kernel_fn_called_iff", "kernel_result", "kernel_event_iff", "model_fallback_layer_is_the_codes"]]
+PROPS["C11"]["required_theorems"] += ["Failsafe.Props.C11." + t for t in ["kernel_key_precedence", "kernel_hit_iff", "kernel_store_iff", "kernel_no_key_no_io", "model_cache_layer_is_the_codes"]]
+PROPS["C17"]["required_theorems"] += ["Failsafe.Props.C17." + t for t in ["counters_invariant", "counter_steps", "executions_only_in_record", "model_last_outcome_views_are_the_codes"]]
